@@ -414,16 +414,19 @@ class CliCampaign:
         no_api = set()
         for attempt in range(12):
             with open(din, "w") as fh:
-                json.dump([{"text": it["text"], "order": it["order"], "no_api": (i in no_api) or not it["api"]}
+                # after two hanging items the API route is dropped for the rest of this batch (the hangs are already
+                # reported; a change that makes MANY orderings diverge must end as a violation, not as a tool timeout)
+                all_off = len(no_api) >= 2
+                json.dump([{"text": it["text"], "order": it["order"], "no_api": all_off or (i in no_api) or not it["api"]}
                            for i, it in enumerate(self.items)], fh)
             try:
-                run_harness(["describe", din, dout, prog], timeout=240)
+                run_harness(["describe", din, dout, prog], timeout=240 if not no_api else 120)
                 break
             except subprocess.TimeoutExpired:
                 # the API route (NamedSymbol ordering) of one item does not terminate: data, not a tool failure
                 i = int(open(prog).read().strip())
                 it = self.items[i]
-                if i in no_api:
+                if i in no_api or all_off:
                     raise ToolError("describe hangs on item %d even without the API route: %r" % (i, it["text"]))
                 no_api.add(i)
                 self.run.violation("cli:%s:API route does not terminate" % self.label,
